@@ -188,6 +188,17 @@ class Quantity:
             return Quantity(ufunc(Quantity(inputs[0].magnitude, inputs[0].baseunits).to(None).magnitude.value),'rad')
         elif ufunc in [np.isnan, np.isnat]:
             return ufunc(inputs[0].magnitude.value)
+        elif ufunc in [np.multiply, np.divide, np.add, np.subtract] and method=='__call__' and len(inputs)==2:
+            # a numpy array or numpy scalar stands on the left of the operator: numpy_array * quantity
+            left = inputs[0] if isinstance(inputs[0], Quantity) else Quantity(inputs[0])
+            if ufunc==np.multiply:
+                return left * inputs[1]
+            elif ufunc==np.divide:
+                return left / inputs[1]
+            elif ufunc==np.add:
+                return left + inputs[1]
+            else:
+                return left - inputs[1]
         else:
             return Quantity(ufunc(inputs[0].magnitude.value), inputs[0].baseunits)
     
